@@ -4,7 +4,7 @@
 export GOFLAGS=-mod=mod GOPROXY=off GOSUMDB=off GOTOOLCHAIN=local
 for d in "$@"; do
   d=$(cd "$d" && pwd); id=$(basename "$d")
-  W=$(grep -m1 -oE '/tmp/seed[0-9]+/C[0-9]+' "$d/demo.sh")
+  W=$(grep -oE '/tmp/seed[0-9]+/C[0-9]+' "$d/demo.sh" | head -1)
   [ -z "$W" ] && { echo "$id: cannot find the worktree path in demo.sh"; continue; }
   [ -e "$W" ] && { echo "$id: $W exists, skipping"; continue; }
   git -C /repo worktree add -q --detach "$W" HEAD || continue
